@@ -15,7 +15,7 @@ import time
 import types
 
 
-def install_fake_backend(log):
+def install_fake_backend(log, faults=()):
   class FakeStream:
     def __init__(self, pa, idx):
       self._stream = ("dev", idx); self.pa = pa; self.idx = idx; self.open = True
@@ -35,8 +35,15 @@ def install_fake_backend(log):
     def get_host_api_count(self): return 0
   pa = types.ModuleType("pyaudio"); pa.PyAudio = PyAudio
   po = types.ModuleType("_portaudio")
+  counts = {}
   def write_stream(st, chunk, size, flag=False):
-    log.append(["write", st[1], bytes(chunk)])
+    idx = st[1]
+    n = counts.get(idx, 0)
+    if idx < len(faults) and faults[idx] is not None and faults[idx] == n:
+      log.append(["write-fails", idx])
+      raise IOError("backend failure injected at chunk %d of stream %d" % (n, idx))
+    counts[idx] = n + 1
+    log.append(["write", idx, bytes(chunk)])
   po.write_stream = write_stream
   sys.modules["pyaudio"] = pa
   sys.modules["_portaudio"] = po
@@ -125,7 +132,8 @@ def replay(repo, run, step_timeout=1.0):
   -> dict(status, events, detail)"""
   sys.path.insert(0, repo)
   log = []
-  install_fake_backend(log)
+  install_fake_backend(log, run.get("faults") or ())
+  threading.excepthook = lambda args: None          # an injected backend failure ends its player thread quietly
   import audiolazy.lazy_io as lio
   path = lio.__file__
   # threads park only before lines that are statements of the model (anything else - `try:`, `return x`, `break` -
@@ -255,7 +263,8 @@ def replay(repo, run, step_timeout=1.0):
     alive = [p for p in players if p is not None and p.is_alive()]
     if mt.is_alive() or alive:
       status, detail = "hang", "after the schedule: main alive=%s players alive=%d" % (mt.is_alive(), len(alive))
-  events = [[e[0]] + ([e[1]] if len(e) > 1 and e[0] != "write" else ([e[1]] if e[0] == "write" else [])) for e in log]
+  events = [[e[0]] + ([e[1]] if len(e) > 1 and e[0] != "write" else ([e[1]] if e[0] == "write" else [])) for e in log
+            if e[0] != "write-fails"]
   writes = {}
   for e in log:
     if e[0] == "write": writes.setdefault(e[1], []).append(e[2])
